@@ -67,7 +67,7 @@ CHECKS = {
    technique="symbolic execution of go/ssa with DFS over trees x patterns x operations (bounded model checking), native replay",
    design="5/C08"),
  "C09": dict(
-   text="(1) safeio.ReadAtMost / CopyDataWithContext / CopyNWithContext with the real io, bytes.Buffer and contextio code: source of 0..3 (thorough 4) FULLY symbolic bytes, every chunking (incl. a zero-length read), failure after k bytes, cancellation before the call or inside the j-th Read, failing/short writer, every max/n in [-1,L+1]: delivered bytes are an exact prefix, success delivers exactly min(L,max), CopyN transfers exactly n or errors, no Read after the context ended, no spurious failure, kinds cancelled/EOF. (2) 23 context-accepting filesystem entry points with an already cancelled / expired context: the right kind, zero mutating backend operations, unchanged tree, balanced handles. (3) 12 of them (incl. unzip of an archive of 32 (48) consecutive directory entries) with the context cancelled after the j-th backend operation (j in 1..12) over 8 (12) files: at most 40 further backend operations whatever remains. (4) limited file reads refuse larger files as 'too large'.",
+   text="(1) safeio.ReadAtMost / CopyDataWithContext / CopyNWithContext with the real io, bytes.Buffer and contextio code: source of 0..3 (thorough 4) FULLY symbolic bytes, every chunking (incl. a zero-length read), failure after k bytes, cancellation before the call or inside the j-th Read, failing/short writer, every max/n in [-1,L+1]: delivered bytes are an exact prefix, success delivers exactly min(L,max), CopyN transfers exactly n or errors, no Read after the context ended, no spurious failure, kinds cancelled/EOF. (2) all 32 exported context-accepting filesystem entry points that need no privileges with an already cancelled / expired context: the right kind, zero mutating backend operations, unchanged tree, balanced handles. (3) 17 of them (incl. unzip of an archive of 32 (48) consecutive directory entries) with the context cancelled after the j-th backend operation (j in 1..12) over 8 (12) files: at most 40 further backend operations whatever remains. (4) limited file reads refuse larger files as 'too large'.",
    note="Lengths up to 2^20 and real buffer boundaries, WriterTo/ReaderFrom fast paths and the OS filesystem are outside. One genuine defect (CopyToDirectoryWithContext) was found here and fixed.",
    technique="symbolic execution of go/ssa + SMT (QF_BV) on symbolic byte streams; DFS over scripts and entry points; native replay",
    design="5/C09"),
